@@ -190,6 +190,7 @@ i_de &i_de::operator=(const std::vector<i_de::value_type> &v)
   Expects(v.size() == parameters());
 
   genome_ = v;
+  signature_.clear();
 
   return *this;
 }
